@@ -218,7 +218,7 @@ CLAIMS.update({
              'package writes into an array it was handed (so the recorded construction points '
              'stay what they were); a union read back from a checkpoint carries every member of the '
              'record.',
-        ref='DESIGN.md sections 4 C13, 10.9-10.13, 10.16, 10.17, 10.18, rules L1 L1d L6 L0 T1 T9 S2 S3 S4 G5 F9 N3 S5', note=TRUST),
+        ref='DESIGN.md sections 4 C13, 10.9-10.13, 10.16, 10.17, 10.18, rules L1 L1d L6 L0 T1 T9 S2 S3 S4 G5 F9 N3 S5 G7', note=TRUST),
     'C14': dict(
         technique='lockstep rule on local view arrays; purity / parameter-guarded draw; '
                   'path-wise symbolic evaluation of the repeat counts',
@@ -245,7 +245,7 @@ CLAIMS.update({
              'x[0] - x[-1] + 1 both for distinct and for coincident coordinates (float modulo '
              'evaluated piecewise) and that the centre is x[argmax] + max/2 + 1/2 modulo 1 over '
              'that same vector.',
-        ref='DESIGN.md section 4 C16, 10.9 and 10.16, 10.17, 10.18, rules M6 M7 M8 P17', note=TRUST +
+        ref='DESIGN.md section 4 C16, 10.9 and 10.16, 10.17, 10.18, rules M6 M7 M8 P17 G7', note=TRUST +
         ' float a % 1 is in [0,1) for a >= 0 and in [0,1] when a may be negative.'),
 })
 
